@@ -106,7 +106,19 @@ MEDDLY::node_handle MEDDLY::forest::_makeIdentitiesTo(node_handle p, int K, int 
   return fresh(L == 0 ? true : diag);
 }
 // the recursion starts by allocating a compute-table key: everything from there on is outside this check
-MEDDLY::ct_vector::ct_vector(unsigned sz) : _size(sz) { data = nullptr; vp_assume(false); }
+static OPCLASS* the_op; static node_handle curA, curB;
+MEDDLY::ct_vector::ct_vector(unsigned sz) : _size(sz)
+{
+  data = nullptr;
+#if OP != 3
+  // ... but it must not be entered at level 0: there is no node to unpack there, so operands that are both
+  // terminals have to be answered by a terminal case (the level is the operation's own topLevelOf)
+  int la = the_op->arg1F->getNodeLevel(curA), lb = the_op->arg2F->getNodeLevel(curB);
+  vp_assert(the_op->topLevelOf(curL, la, lb) != 0, "the recursion is entered only at a level that has nodes (terminal operands are answered by a terminal case)");
+  vp_cover(4);
+#endif
+  vp_assume(false);
+}
 MEDDLY::ct_vector::~ct_vector() { }
 #if OP == 3
 // complement of an identity pattern builds nodes: outside this check
@@ -158,7 +170,7 @@ extern "C" void c04_setops()
   // levels of the non-terminal operands (below L), read by the recursion only
   int la = int(vp_range(1, MAXL)), lb = int(vp_range(1, MAXL));
   F1->nodeHeaders.setNodeLevel(HA, la); F2->nodeHeaders.setNodeLevel(HB, lb); if (F1 == F2) F1->nodeHeaders.setNodeLevel(HA, la);
-  curL = L; n_made = 0;
+  curL = L; n_made = 0; the_op = op; curA = A; curB = B;
 
   node_handle C = 777;
 #if OP == 3
